@@ -305,3 +305,23 @@ PROPS["C13"] = {
          "thorough": {"checks": 2500, "shards": 16, "timeout": 1700}},
     ],
 }
+
+PROPS["C16"] = {
+    "title": "Raft log storage and membership: durable, truncating correctly, quorum-safe",
+    "level": "exploration",
+    "technique": "model-based stateful PBT (rapid) on the real WAL API with restart injection after every kind of step (reference log model); decision-table PBT of membership requests against the real validation + availability check behind a fake raft node",
+    "level_text": ("Part A: generated histories of append batches whose first index lies anywhere in [snapshot+1, last+1] (truncating a shorter, equal or longer suffix), entries carrying real produced blocks, empty entries and conf changes, hard-state / snapshot / identity writes, ResetWAL, ClearWAL and restarts (close + reopen the memorydb directory); after every step every index up to last+3, "
+                   "the block-hash lookup, hard state, snapshot, identity and ReadAll (entries after the snapshot with blocks re-materialised byte-identical) are compared with a reference log. Part B: clusters of 1-5 members with generated health vectors (healthy, slow beyond / exactly at the gap limit, probing, snapshotting) and removed-member sets; add requests (fresh, duplicate name/id/address/peer id, removed id, invalid fields) and remove requests "
+                   "(healthy/unhealthy existing, unknown, already removed) decided by the real code and by the property's rule table."),
+    "level_note": "raft never hands the log a batch that starts beyond last+1 or inside the snapshot, so those are not generated. The raft library itself (etcd) and its MemoryStorage are trusted. Health is fabricated through raft.Status of a fake node; the leader is member 0.",
+    "rule": ("Part A: a case = step list; non-trivial = at least one truncating append and one restart. Part B: a case = (cluster, health vector, removed set, request); non-trivial = the cluster has an unhealthy member or the request must be refused. Distinct by the full description."),
+    "assumptions": ["memorydb persists on Close and reloads on open (aergo-lib)", "etcd raft MemoryStorage/Status are correct"],
+    "units": [
+        {"pkg": "consensus/impl/raftv2", "run": "^TestC16Wal$",
+         "quick": {"checks": 100, "shards": 10, "timeout": 400},
+         "thorough": {"checks": 2000, "shards": 14, "timeout": 1700}},
+        {"pkg": "consensus/impl/raftv2", "run": "^TestC16Membership$",
+         "quick": {"checks": 1500, "shards": 2, "timeout": 300},
+         "thorough": {"checks": 40000, "shards": 2, "timeout": 1700}},
+    ],
+}
